@@ -52,5 +52,15 @@ PROPS['C15'] = dict(
              'float arguments treated as reals'],
     assumptions=['Legal(type, args) is transcribed from the README "require the following arguments" lists and the bound list in the property statement',
                  'Generator.__init__ ordering (parse before any output) and generate_instances are checked by C08 contracts and by the bounded runs (nothing written on rejection)'])
+OPP = 'options_parser:Options_parser.'
+PROPS['C16'] = dict(
+    title='Criteria run in position order; invalid solver option sets are refused',
+    functions=[OPP + '_get_ordered_optimisations', (OPP + 'parse', {'argparse_py': True})],
+    lemmas=['C16/occupy-step', 'C16/pigeonhole'],
+    level_text='full-domain symbolic execution of Options_parser.parse over the nine criterion slots (each absent | int | list of ints, any integers): refuses iff a position is outside 1..9, two positions coincide or -stab without -twopl; otherwise every requested criterion sits at index = number of requested criteria with a smaller position, with its own extras; literal-table loops unrolled exactly with state merging; staged counting lemma for "shared position <=> fewer occupied positions"',
+    harness=True, bound='all position pairs over {absent,0,1,2,3,9,10} for every pair of criteria + seeded random option sets over all nine',
+    trusted=['T9 argparse: optional int arguments are None or an int, nargs=+ arguments None or a non-empty list of ints; parser.error raises SystemExit(2)'],
+    assumptions=['the reporting order of the "- optimisation:" lines (run_optimisations) is covered under C04/C14 contracts of lp_solver once built; here by the bounded runs only',
+                 'Solver.__init__ calls parse before import_model (sequential code, checked by the bounded runs with a nonexistent file name)'])
 NOT_APPLICABLE = {}
 NOTES = 'see DESIGN.md; ./check Cxx --tier quick|thorough; exit 0 held / 1 VIOLATION / 2 undecided / 3 checker error'
